@@ -104,12 +104,17 @@ CORNERS = [
     # with an event store (cut streams are resumed instead of failing)
     ("store-cut-post-then-close", {"store": True, "timeout": True}, "call|k1 emit|k1 cutpost|k1 tick sclose|s1 ret|k1 tick"),
     ("store-client-close-during-resume", {"store": True}, "call|k1 emit|k1 cutpost|k1 cclose|c1 tick ret|k1"),
+    # an event store whose SessionClosed fails when the session ends (Close from either side, the idle reaper)
+    ("storefail-server-close", {"store": True, "storefail": True}, "call|k1 ret|k1 tick sclose|s1 tick"),
+    ("storefail-server-close-busy", {"store": True, "storefail": True}, "call|k1 sclose|s1 tick ret|k1 tick"),
+    ("storefail-client-close", {"store": True, "storefail": True}, "call|k1 ret|k1 tick cclose|c1 tick"),
+    ("storefail-idle", {"store": True, "storefail": True, "timeout": True}, "call|k1 ret|k1 tick idle tick"),
 ]
 
 
 def mk_scenario(sid, cfg, steps, rnd=None, version=None):
     c = {"stateless": bool(cfg.get("stateless")), "timeout": bool(cfg.get("timeout")), "nosse": bool(cfg.get("nosse")),
-         "store": bool(cfg.get("store"))}
+         "store": bool(cfg.get("store")), "storefail": bool(cfg.get("store") and cfg.get("storefail"))}
     c["version"] = version or cfg.get("version") or (rnd.choice(VERSIONS) if rnd else VERSIONS[0])
     return {"id": sid, "cfg": c, "steps": steps}
 
@@ -358,6 +363,7 @@ def random_scenarios(n, seed, rnd, prefix):
         stateless = rnd.random() < 0.15
         cfg = {"stateless": stateless, "timeout": rnd.random() < 0.6, "nosse": (not stateless and rnd.random() < 0.15),
                "store": (not stateless and rnd.random() < 0.25)}
+        cfg["storefail"] = bool(cfg["store"] and rnd.random() < 0.3)
         ks = ["k%d" % j for j in range(1, rnd.randint(2, 4) + 1)]
         steps, called, closers = [], [], {"c": 0, "s": 0}
         for _ in range(rnd.randint(4, 16)):
@@ -431,7 +437,7 @@ def run_harness(pid, rows, seed, timeout=900, prefix="httpclose_"):
 
 def mode_of(cfg):
     return "%s%s%s%s" % ("stateless" if cfg.get("stateless") else "stateful", "+timeout" if cfg.get("timeout") else "",
-                         "+nosse" if cfg.get("nosse") else "", "+store" if cfg.get("store") else "")
+                         "+nosse" if cfg.get("nosse") else "", ("+storefail" if cfg.get("storefail") else "+store") if cfg.get("store") else "")
 
 
 def collapse(ops):
@@ -510,7 +516,7 @@ def judge(v, pid, obs, orows, scen_by_id):
         if sc is None:
             head = trows[0]
             sc = {"id": tid, "cfg": {"stateless": head.get("stateless"), "timeout": head.get("timeout"), "nosse": not head.get("sse") and not head.get("stateless"),
-                                     "store": head.get("store"), "version": head.get("version")}, "steps": steps_of_trace(trows)}
+                                     "store": head.get("store"), "storefail": head.get("storefail"), "version": head.get("version")}, "steps": steps_of_trace(trows)}
         ev = dict(e)
         ev.pop("snap", None)
         v.violation(signature(clause, sc, trows, f["line"] - start, e),
